@@ -40,6 +40,19 @@ CHECKS = {
              'modelled; ciphertext length multiple of 16 and 16-byte IV are hypotheses (as in the property).',
         technique='Lean 4 refinement proof + model/implementation correspondence',
         design='§4 C02'),
+    'C10': dict(
+        text='Theorems: NCSD cartridge header — rejection of wrong magic / zero media id, listed partitions = table '
+             'entries with non-zero offset at offset*0x200 / size*0x200, partition view = window (C09); CDN — '
+             'lower-case name first, upper-case fallback, missing files skipped without affecting other records '
+             '(selection = filter in TMD order); content views by C02/C09.  SD-title and the three key-supply modes are '
+             'modelled by composition of the C05/C08/C14 models and tied by correspondence.  Differential execution: the '
+             'same NCCHs packaged as cartridge image, CDN directory (ticket / encrypted key + index / decrypted key, '
+             'name cases, missing files), plain and SD-encrypted installed title (through SDRoot.open_title), on OS '
+             'and in-memory filesystems, with monitors on listings, raw bytes and nested ExeFS files.',
+        note=COMMON_NOTE + 'independent builders are the specification; pyfilesystem2/pathlib are treated as "open '
+             'returns the file bytes"; equivalence across packagings is established by the monitor, not by a theorem.',
+        technique='Lean 4 proof (container logic) + model/implementation correspondence',
+        design='§4 C10'),
     'C11': dict(
         text='Theorems: load(serialize t) = t for every well-formed value (all six signature types, any field values, '
              '<= 64 info records, any chunk records) hence both round-trip directions; exhaustive kernel-checked facts '
